@@ -163,8 +163,9 @@ theorem sdist_lineNew (eps A B C : ℝ) (p : Point ℝ) :
   rw [show A * A + B * B = A ^ 2 + B ^ 2 by ring]
   ring
 
-theorem margin_val : margin.val = 1 / 10 ^ 8 := Q.val_tenPowNeg 8
-theorem margin_wf : margin.WF := Q.wf_tenPowNeg 8
+theorem margin_val : margin.val = 101 / 10 ^ 11 := by
+  unfold margin Q.val; push_cast; ring
+theorem margin_wf : margin.WF := Nat.pow_pos (by norm_num)
 
 
 theorem qDist2_val {p q : QPoint} (hp : p.WF) (hq : q.WF) :
